@@ -34,7 +34,7 @@ mod imp {
     }
 
     /// Extra accepted query shapes the repository corpus does not contain (numbers schema).
-    const EXTRA: [(&str, &str); 28] = [
+    const EXTRA: [(&str, &str); 30] = [
         ("x_tag_twice_in_fold", r#"{ Number(min: 2, max: 4) { value @tag(name: "v") @output multiple(max: 3) @fold { value @output(name: "m") @filter(op: ">", value: ["%v"]) @filter(op: "!=", value: ["%v"]) } } }"#),
         ("x_tag_in_fold_and_nested_fold", r#"{ Number(min: 2, max: 4) { value @tag(name: "v") @output multiple(max: 3) @fold { value @output(name: "m") @filter(op: ">", value: ["%v"]) divisor @fold { value @output(name: "d") @filter(op: "<=", value: ["%v"]) } } } }"#),
         ("x_tag_only_in_nested_fold", r#"{ Number(min: 2, max: 4) { name @output value @tag(name: "v") multiple(max: 3) @fold { value @output(name: "m") divisor @fold { value @output(name: "d") @filter(op: "<=", value: ["%v"]) } } } }"#),
@@ -62,6 +62,8 @@ mod imp {
         ("x_not_regex_with_tag", r#"{ Number(min: 0, max: 9) { value @output name @tag(name: "n") successor { name @output(name: "sn") @filter(op: "not_regex", value: ["%n"]) } } }"#),
         ("x_not_regex_with_tag_on_multiple", r#"{ Number(min: 0, max: 9) { value @output name @tag(name: "n") multiple(max: 3) { name @output(name: "mn") @filter(op: "not_regex", value: ["%n"]) } } }"#),
         ("x_regex_with_optional_tag", r#"{ Number(min: 0, max: 6) { value @output predecessor @optional { name @tag(name: "pn") } successor { name @output(name: "sn") @filter(op: "not_regex", value: ["%pn"]) } } }"#),
+        ("x_one_of_with_repeated_values", r#"{ Number(min: 0, max: 6) { value @output @filter(op: "one_of", value: ["$dups"]) successor { value @output(name: "s") @filter(op: "one_of", value: ["$dups"]) } } }"#),
+        ("x_one_of_with_repeated_values_in_fold", r#"{ Number(min: 0, max: 4) { value @output multiple(max: 3) @fold { value @output(name: "m") @filter(op: "one_of", value: ["$dups"]) } } }"#),
         ("x_variable_used_twice", r#"{ Number(min: 0, max: 5) { value @output @filter(op: ">=", value: ["$x"]) successor { value @filter(op: "!=", value: ["$x"]) } } }"#),
     ];
 
@@ -80,6 +82,7 @@ mod imp {
         for (name, q) in EXTRA {
             let mut arguments = BTreeMap::new();
             if q.contains("$x") { arguments.insert(Arc::from("x"), FieldValue::Int64(2)); }
+            if q.contains("$dups") { arguments.insert(Arc::from("dups"), FieldValue::List(vec![FieldValue::Int64(2), FieldValue::Int64(2), FieldValue::Int64(3), FieldValue::Int64(4), FieldValue::Int64(2)].into())); }
             if q.contains("$nm") { arguments.insert(Arc::from("nm"), FieldValue::String(Arc::from("three"))); }
             out.push(Case { name: name.to_string(), schema_name: "numbers".to_string(), query: q.to_string(), arguments });
         }
